@@ -596,7 +596,7 @@ class PdoVariable(variable.Variable):
             # Shift and mask to get the correct values
             data = (data >> bit_offset) & ((1 << self.length) - 1)
             # Check if the variable is signed and if the data is negative prepend signedness
-            if od_struct.format.islower() and (1 << (self.length - 1)) < data:
+            if od_struct.format.islower() and (1 << (self.length - 1)) <= data:
                 # fill up the rest of the bits to get the correct signedness
                 data = data | (~((1 << self.length) - 1))
             data = od_struct.pack(data)
